@@ -126,3 +126,27 @@ func TestC15_Mem(t *testing.T) {
 	p := kit.Prop[C15Mem]{ID: "C15", Name: "Mem", Quick: 1500, Thorough: 150000, Gen: genC15Mem, Run: runC15Mem}
 	p.Execute(t)
 }
+
+// C02 on the same in-memory conns: whatever way the two conns hand their bytes over (reads of any size, the last
+// bytes together with io.EOF), the target receives exactly the client's payload and the client can decrypt exactly
+// the target's stream. Only the relay clauses are judged here; the counters belong to C15.
+func genC02Mem(t *rapid.T) C15Mem {
+	c := genC15Mem(t)
+	for !c.Valid {
+		c = genC15Mem(t)
+	}
+	return c
+}
+
+func runC02Mem(c C15Mem, info *kit.Info) *kit.Finding {
+	f := runC15Mem(c, info)
+	if f != nil && (f.Signature == "mem:relay" || f.Signature == "mem:relay-to-client" || f.Signature == "mem:stuck") {
+		return f
+	}
+	return nil
+}
+
+func TestC02_Mem(t *testing.T) {
+	p := kit.Prop[C15Mem]{ID: "C02", Name: "Mem", Quick: 1500, Thorough: 150000, Gen: genC02Mem, Run: runC02Mem}
+	p.Execute(t)
+}
